@@ -23,7 +23,12 @@ from typing import Any
 
 from src.analyzers.rust_base import TREE_SITTER_RUST_AVAILABLE
 from src.core.base import BaseLintContext, MultiLanguageLintRule
-from src.core.linter_utils import load_linter_config, with_parsed_python
+from src.core.linter_utils import (
+    is_ignored_path,
+    load_linter_config,
+    project_relative_path,
+    with_parsed_python,
+)
 from src.core.types import Violation
 from src.linter_config.ignore import get_ignore_parser
 
@@ -60,6 +65,13 @@ class NestingDepthRule(MultiLanguageLintRule):
     def description(self) -> str:
         """Description of what this rule checks."""
         return "Functions should not have excessive nesting depth for better readability"
+
+    def check(self, context: BaseLintContext) -> list[Violation]:
+        """Skip files matching the section's `ignore` patterns, then check as usual."""
+        config = self._load_config(context)
+        if config.ignore and is_ignored_path(project_relative_path(context), config.ignore):
+            return []
+        return super().check(context)
 
     def _load_config(self, context: BaseLintContext) -> NestingConfig:
         """Load configuration from context.
